@@ -154,7 +154,8 @@ class IsotropicSolidAngle(BaseProposal):
         # feed the randomly generated point into the cdf inverse
         theta = numpy.log(numpy.exp(self.kappa)
                           - self.kappa * cdf / (2 * numpy.pi * self.norm))
-        theta = numpy.arccos(theta / self.kappa)
+        # rounding can push the cosine marginally outside [-1, 1]
+        theta = numpy.arccos(numpy.clip(theta / self.kappa, -1., 1.))
         return phi, theta
 
     def _spherical2cartesian(self, phi, theta, convert=False):
